@@ -3,7 +3,8 @@
     specification: Model/C12_Enum.v (exhaustive gamete enumeration). *)
 From Coq Require Import Reals.
 From PV Require Import Lib.Common Model.C12_Var Model.C12_Enum Proofs.C12_Sums Proofs.C12_Chunks Proofs.C12_Var Proofs.C12_Selfing
-  Proofs.C12_Meiosis Proofs.C12_Exact Proofs.C12_Genic Proofs.C12_Findings Proofs.C12_Lift Proofs.C12_Multi Proofs.C12_Top.
+  Proofs.C12_Meiosis Proofs.C12_Exact Proofs.C12_Genic Proofs.C12_Findings Proofs.C12_Lift Proofs.C12_Multi Proofs.C12_Top
+  Model.C12_KernelBase Gen.C12_Kernel Proofs.C12_Kernel Proofs.C12_Scale.
 Local Open Scope Q_scope.
 
 (** ** memory chunking *)
@@ -320,6 +321,188 @@ Theorem C12_uc_def : forall si mean var x y, 0 <= si -> 0 <= x - mean -> (x - me
   0 <= y -> y * y == var -> x == mean + si * y.
 Proof. exact uc_def. Qed.
 Print Assumptions C12_uc_def.
+
+(** ** the kernel expressions of the CURRENT source (Gen/C12_Kernel.v is regenerated from pybrops on every run by
+    harness/translate/c12_kernel.py) are the expressions of the model, and the statements above hold of the matrices
+    RE-ASSEMBLED FROM THE GENERATED DEFINITIONS: [gen_*_low] = scale * sum over the generated group / row-chunk / column-chunk
+    loops of the generated combination of the generated partial sums (which D table, which two haplotypes);
+    [gen_*_entry] = content of the zero-initialised array after the accumulation over the generated visited tuples and the
+    generated mirror assignment ([loop_entry]).  A change of any of these expressions in the source changes the regenerated
+    definitions and these theorems are re-checked against it. *)
+Theorem C12_kernel_is_model :
+  (forall r k, k_rprob_filial r k = rprob_filial r k) /\ (forall r d, k_cov_D1s r d = cov_D1s r d) /\ (forall r d, k_cov_D2s r d = cov_D2s r d) /\
+  (forall a b c, k_srange a b c = srange a b c) /\
+  (forall S t1 t2 geno f m, gen_two_low S t1 t2 (g_inbred geno) f m = twoway_low S t1 t2 (row geno f) (row geno m)) /\
+  (forall S t1 t2 geno r f m, gen_three_low S t1 t2 (g_inbred geno) r f m = threeway_low S t1 t2 (row geno r) (row geno f) (row geno m)) /\
+  (forall S t1 t2 geno f2 m2 f m, gen_four_low S t1 t2 (g_inbred geno) f2 m2 f m = quad_low S t1 t2 (row geno f2) (row geno m2) (row geno f) (row geno m)) /\
+  (forall S t1 t2 geno geno1 f m, gen_di_low S t1 t2 (g_phased geno geno1) f m = quad_low S t1 t2 (row geno1 f) (row geno f) (row geno1 m) (row geno m)) /\
+  (forall S t1 t2 geno f m, gen_twoc_low S t1 t2 (g_inbred geno) f m = twoway_low S t1 t2 (row geno f) (row geno m)) /\
+  (forall S t1 t2 geno r f m, gen_threec_low S t1 t2 (g_inbred geno) r f m = threeway_low S t1 t2 (row geno r) (row geno f) (row geno m)) /\
+  (forall S t1 t2 geno f2 m2 f m, gen_fourc_low S t1 t2 (g_inbred geno) f2 m2 f m = quad_low S t1 t2 (row geno f2) (row geno m2) (row geno f) (row geno m)) /\
+  (forall S t1 t2 geno geno1 f m, gen_dic_low S t1 t2 (g_phased geno geno1) f m = quad_low S t1 t2 (row geno1 f) (row geno f) (row geno1 m) (row geno m)) /\
+  (forall mean si y, k_uc mean si y = mean + si * y) /\
+  (forall epgc (bvf : nat -> nat -> Q) c (tr : nat), k_uc_pmean epgc (fun k => bvf k tr) c = pmean epgc (map (fun k => bvf k tr) c)).
+Proof. exact kernel_is_model. Qed.
+Print Assumptions C12_kernel_is_model.
+
+(** the generated loop ranges, index tuples and mirror assignment produce the model's entries (variance and covariance classes) *)
+Theorem C12_kernel_entries_are_model : forall n S geno geno1 t1 t2,
+  (forall f m, (f < n)%nat -> (m < n)%nat -> gen_two_entry n S geno t1 t2 f m = twoway_entry S geno t1 t2 f m /\
+                                               gen_twoc_entry n S geno t1 t2 f m = twoway_entry S geno t1 t2 f m) /\
+  (forall r f m, (r < n)%nat -> (f < n)%nat -> (m < n)%nat -> gen_three_entry n S geno t1 t2 r f m = threeway_entry S geno t1 t2 r f m /\
+                                                                gen_threec_entry n S geno t1 t2 r f m = threeway_entry S geno t1 t2 r f m) /\
+  (forall f2 m2 f m, (f2 < n)%nat -> (m2 < n)%nat -> (f < n)%nat -> (m < n)%nat ->
+     gen_four_entry n S geno t1 t2 f2 m2 f m = fourway_entry S geno t1 t2 f2 m2 f m /\
+     gen_fourc_entry n S geno t1 t2 f2 m2 f m = fourway_entry S geno t1 t2 f2 m2 f m) /\
+  (forall f m, (f < n)%nat -> (m < n)%nat -> gen_di_entry n S geno geno1 t1 t2 f m = dihybrid_entry S geno geno1 t1 t2 f m /\
+                                               gen_dic_entry n S geno geno1 t1 t2 f m = dihybrid_entry S geno geno1 t1 t2 f m).
+Proof. exact kernel_entries_are_model. Qed.
+Print Assumptions C12_kernel_entries_are_model.
+
+(** every entry of the matrices assembled from the generated definitions equals the enumeration (every taxa count n, every index
+    tuple below n, repeated last parents and selfs included; [gen_tables]: the D tables hold the values of the helpers the class calls) *)
+Theorem C12_kernel_twoway_exact : forall n S R k geno t1 t2 f m, (f < n)%nat -> (m < n)%nat -> mem_ok (s_mem S) ->
+  (gen_tables k_two_D1 k_cov_D2s S R k -> gen_two_entry n S geno t1 t2 f m == two_truth S R k geno t1 t2 f m) /\
+  (gen_tables k_twoc_D1 k_cov_D2s S R k -> gen_twoc_entry n S geno t1 t2 f m == two_truth S R k geno t1 t2 f m).
+Proof. exact kernel_twoway_exact. Qed.
+Print Assumptions C12_kernel_twoway_exact.
+
+Theorem C12_kernel_threeway_exact : forall n S R k geno t1 t2 r f m, (r < n)%nat -> (f < n)%nat -> (m < n)%nat -> mem_ok (s_mem S) ->
+  (gen_tables k_three_D1 k_three_D2 S R k -> gen_three_entry n S geno t1 t2 r f m == three_truth S R k geno t1 t2 r f m) /\
+  (gen_tables k_threec_D1 k_threec_D2 S R k -> gen_threec_entry n S geno t1 t2 r f m == three_truth S R k geno t1 t2 r f m).
+Proof. exact kernel_threeway_exact. Qed.
+Print Assumptions C12_kernel_threeway_exact.
+
+Theorem C12_kernel_fourway_exact : forall n S R k geno t1 t2 f2 m2 f m, (f2 < n)%nat -> (m2 < n)%nat -> (f < n)%nat -> (m < n)%nat -> mem_ok (s_mem S) ->
+  (gen_tables k_four_D1 k_four_D2 S R k ->
+   gen_four_entry n S geno t1 t2 f2 m2 f m == four_truth S R k (row geno f2) (row geno m2) (row geno f) (row geno m) t1 t2) /\
+  (gen_tables k_fourc_D1 k_fourc_D2 S R k ->
+   gen_fourc_entry n S geno t1 t2 f2 m2 f m == four_truth S R k (row geno f2) (row geno m2) (row geno f) (row geno m) t1 t2).
+Proof. exact kernel_fourway_exact. Qed.
+Print Assumptions C12_kernel_fourway_exact.
+
+Theorem C12_kernel_dihybrid_exact : forall n S R k geno geno1 t1 t2 f m, (f < n)%nat -> (m < n)%nat -> mem_ok (s_mem S) ->
+  (gen_tables k_di_D1 k_di_D2 S R k ->
+   gen_di_entry n S geno geno1 t1 t2 f m == four_truth S R k (row geno1 f) (row geno f) (row geno1 m) (row geno m) t1 t2) /\
+  (gen_tables k_dic_D1 k_dic_D2 S R k ->
+   gen_dic_entry n S geno geno1 t1 t2 f m == four_truth S R k (row geno1 f) (row geno f) (row geno1 m) (row geno m) t1 t2).
+Proof. exact kernel_dihybrid_exact. Qed.
+Print Assumptions C12_kernel_dihybrid_exact.
+
+(** the generated chunk loops (row and column loop of all eight classes) tile every linkage group for every step >= 1 *)
+Theorem C12_kernel_chunks_partition : forall ch, In ch all_chunk_fns -> forall lst lsp step : nat, (1 <= step)%nat ->
+  concat (map ixs (ch lst lsp step)) = seq lst (lsp - lst).
+Proof. exact kernel_chunks_partition. Qed.
+Print Assumptions C12_kernel_chunks_partition.
+
+(** the generated rprob_filial / cov_D1s / cov_D2s and the generated combinations are the closed forms derived from the enumeration *)
+Theorem C12_kernel_selfing_closed_form : forall r k i, 0 <= r ->
+  Egen r k i (fun g => fst g * snd g) == (1 - k_rprob_filial r (Some (S k))) * cis i + k_rprob_filial r (Some (S k)) * trans i.
+Proof. exact kernel_selfing_closed_form. Qed.
+Print Assumptions C12_kernel_selfing_closed_form.
+
+Theorem C12_kernel_twoway_selfing_exact : forall r k (A B : hap), 0 <= r ->
+  dhcov (E_two r k A B) == (fst A - fst B) * k_cov_D1s r (Some k) * (snd A - snd B).
+Proof. exact kernel_twoway_selfing_exact. Qed.
+Print Assumptions C12_kernel_twoway_selfing_exact.
+
+Theorem C12_kernel_threeway_selfing_exact : forall r k (R F M : hap), 0 <= r ->
+  dhcov (E_three r k R F M) ==
+  k_three_scale * k_three_comb ((fst F - fst R) * k_cov_D1s r (Some k) * (snd F - snd R)) ((fst M - fst R) * k_cov_D1s r (Some k) * (snd M - snd R))
+                               ((fst F - fst M) * k_cov_D2s r (Some k) * (snd F - snd M)).
+Proof. exact kernel_threeway_selfing_exact. Qed.
+Print Assumptions C12_kernel_threeway_selfing_exact.
+
+Theorem C12_kernel_fourway_selfing_exact : forall r k (P1 P2 P3 P4 : hap), 0 <= r ->
+  dhcov (E_four r k P1 P2 P3 P4) ==
+  k_four_scale * k_four_comb ((fst P2 - fst P1) * k_cov_D2s r (Some k) * (snd P2 - snd P1)) ((fst P3 - fst P1) * k_cov_D1s r (Some k) * (snd P3 - snd P1))
+         ((fst P3 - fst P2) * k_cov_D1s r (Some k) * (snd P3 - snd P2)) ((fst P4 - fst P1) * k_cov_D1s r (Some k) * (snd P4 - snd P1))
+         ((fst P4 - fst P2) * k_cov_D1s r (Some k) * (snd P4 - snd P2)) ((fst P4 - fst P3) * k_cov_D2s r (Some k) * (snd P4 - snd P3)).
+Proof. exact kernel_fourway_selfing_exact. Qed.
+Print Assumptions C12_kernel_fourway_selfing_exact.
+
+Theorem C12_kernel_selfing_limit : forall r k, 0 <= r -> r <= 1#2 ->
+  0 <= k_cov_D1s r (Some k) - k_cov_D1s r None /\ k_cov_D1s r (Some k) - k_cov_D1s r None <= qpow (1#2) (S k).
+Proof. exact kernel_selfing_limit. Qed.
+Print Assumptions C12_kernel_selfing_limit.
+
+(** genic classes: the generated per-marker term with the generated parental weights over the generated parent tuple *)
+Theorem C12_kernel_genic_exact : forall u p tr geno,
+  (forall f m, allele01 (row geno f) -> allele01 (row geno m) ->
+     gen_genic k_gtwo_term k_gtwo_varcoef k_gtwo_epgc_local u p tr (taf geno geno) (k_gtwo_freq_ix f m) ==
+     sumQ (map (fun i => eff u tr (row geno f) (row geno m) i * k_cov_D1s 0 (Some 0%nat) * eff u tr (row geno f) (row geno m) i) (ix p))) /\
+  (forall r f m, allele01 (row geno r) -> allele01 (row geno f) -> allele01 (row geno m) ->
+     gen_genic k_gthree_term k_gthree_varcoef k_gthree_epgc_local u p tr (taf geno geno) (k_gthree_freq_ix r f m) ==
+     sumQ (map (fun i => let gR := row geno r in let gF := row geno f in let gM := row geno m in
+       k_three_scale * k_three_comb (eff u tr gF gR i * eff u tr gF gR i) (eff u tr gM gR i * eff u tr gM gR i) (eff u tr gF gM i * eff u tr gF gM i)) (ix p))) /\
+  (forall f2 m2 f m, allele01 (row geno f2) -> allele01 (row geno m2) -> allele01 (row geno f) -> allele01 (row geno m) ->
+     gen_genic k_gfour_term k_gfour_varcoef k_gfour_epgc_local u p tr (taf geno geno) (k_gfour_freq_ix f2 m2 f m) ==
+     sumQ (map (fun i => let g1 := row geno f2 in let g2 := row geno m2 in let g3 := row geno f in let g4 := row geno m in
+       k_four_scale * k_four_comb (eff u tr g2 g1 i * eff u tr g2 g1 i) (eff u tr g3 g1 i * eff u tr g3 g1 i) (eff u tr g3 g2 i * eff u tr g3 g2 i)
+                                  (eff u tr g4 g1 i * eff u tr g4 g1 i) (eff u tr g4 g2 i * eff u tr g4 g2 i) (eff u tr g4 g3 i * eff u tr g4 g3 i)) (ix p))).
+Proof. exact kernel_genic_exact. Qed.
+Print Assumptions C12_kernel_genic_exact.
+
+(** which loop variable addresses which axis, the allocated shape, which array / label goes to which constructor keyword, and the
+    parental contributions, as the current source says them, for all twelve classes *)
+Theorem C12_kernel_layout : forall n t r f2 m2 f m,
+  (k_two_shape n t = [n; n; t]%nat /\ k_two_acc_ix f m = [f; m] /\ tl k_two_ctor = expected_ctor_tail /\ k_two_epgc = uc_epgc 2) /\
+  (k_three_shape n t = [n; n; n; t]%nat /\ k_three_acc_ix r f m = [r; f; m] /\ tl k_three_ctor = expected_ctor_tail /\ k_three_epgc = uc_epgc 3) /\
+  (k_four_shape n t = [n; n; n; n; t]%nat /\ k_four_acc_ix f2 m2 f m = [f2; m2; f; m] /\ tl k_four_ctor = expected_ctor_tail /\ k_four_epgc = uc_epgc 4) /\
+  (k_di_shape n t = [n; n; t]%nat /\ k_di_acc_ix f m = [f; m] /\ tl k_di_ctor = expected_ctor_tail /\ k_di_epgc = uc_epgc 0) /\
+  (k_twoc_shape n t = [n; n; t; t]%nat /\ k_twoc_acc_ix f m = [f; m] /\ tl k_twoc_ctor = expected_ctor_tail /\ k_twoc_epgc = uc_epgc 2) /\
+  (k_threec_shape n t = [n; n; n; t; t]%nat /\ k_threec_acc_ix r f m = [r; f; m] /\ tl k_threec_ctor = expected_ctor_tail /\ k_threec_epgc = uc_epgc 3) /\
+  (k_fourc_shape n t = [n; n; n; n; t; t]%nat /\ k_fourc_acc_ix f2 m2 f m = [f2; m2; f; m] /\ tl k_fourc_ctor = expected_ctor_tail /\ k_fourc_epgc = uc_epgc 4) /\
+  (k_dic_shape n t = [n; n; t; t]%nat /\ k_dic_acc_ix f m = [f; m] /\ tl k_dic_ctor = expected_ctor_tail /\ k_dic_epgc = uc_epgc 0) /\
+  (k_gtwo_epgc = uc_epgc 2 /\ k_gthree_epgc = uc_epgc 3 /\ k_gfour_epgc = uc_epgc 4 /\ k_gdi_epgc = uc_epgc 0 /\
+   tl k_gtwo_ctor = expected_ctor_tail /\ tl k_gthree_ctor = expected_ctor_tail /\ tl k_gfour_ctor = expected_ctor_tail /\ tl k_gdi_ctor = expected_ctor_tail).
+Proof. exact kernel_layout. Qed.
+Print Assumptions C12_kernel_layout.
+
+(** the usefulness criterion as the source writes it *)
+Theorem C12_kernel_uc_def : forall si mean var x y, 0 <= si -> 0 <= x - mean -> (x - mean) * (x - mean) == si * si * var ->
+  0 <= y -> y * y == var -> x == k_uc mean si y.
+Proof. exact kernel_uc_def. Qed.
+Print Assumptions C12_kernel_uc_def.
+
+(** non-vacuity of the kernel exactness theorems: one marker, parents 0 and 1 — the tables hypotheses hold and the entry
+    [0,1,1] of the three-way matrix (repeated last parent) is non-zero *)
+Example C12_kernel_hyps_satisfiable : mem_ok (s_mem wS) /\ gen_tables k_three_D1 k_three_D2 wS wR 0 /\ gen_tables k_two_D1 k_cov_D2s wS wR 0 /\
+  ~ gen_three_entry 2 wS [[0%Z]; [1%Z]] 0 0 0 1 1 == 0.
+Proof. exact kernel_hyps_example. Qed.
+
+(** ** scale covariance and sessions (the laws behind the phase-2 generators) *)
+(** multiplying every marker effect by c multiplies every entry of every genetic (co)variance matrix by c*c *)
+Theorem C12_scale_covariant : forall c S geno geno1 t1 t2,
+  (forall f m, twoway_entry (scale_setup c S) geno t1 t2 f m == c * c * twoway_entry S geno t1 t2 f m) /\
+  (forall r f m, threeway_entry (scale_setup c S) geno t1 t2 r f m == c * c * threeway_entry S geno t1 t2 r f m) /\
+  (forall f2 m2 f1 m1, fourway_entry (scale_setup c S) geno t1 t2 f2 m2 f1 m1 == c * c * fourway_entry S geno t1 t2 f2 m2 f1 m1) /\
+  (forall f m, dihybrid_entry (scale_setup c S) geno geno1 t1 t2 f m == c * c * dihybrid_entry S geno geno1 t1 t2 f m).
+Proof. exact entries_scale. Qed.
+Print Assumptions C12_scale_covariant.
+
+Theorem C12_genic_scale_covariant : forall c u p tr pf, genic_freq (scale_u c u) p tr pf == c * c * genic_freq u p tr pf.
+Proof. exact genic_scale. Qed.
+Print Assumptions C12_genic_scale_covariant.
+
+Theorem C12_uc_scale_covariant : forall c si mean var x, 0 <= c -> 0 <= x - mean -> (x - mean) * (x - mean) == si * si * var ->
+  0 <= c * x - c * mean /\ (c * x - c * mean) * (c * x - c * mean) == si * si * (c * c * var).
+Proof. exact uc_scale. Qed.
+Print Assumptions C12_uc_scale_covariant.
+Example C12_uc_scale_hyps_satisfiable : 0 <= 2 /\ 0 <= 5 - 3 /\ (5 - 3) * (5 - 3) == 1 * 1 * 4.
+Proof. repeat split; vm_compute; discriminate. Qed.
+
+(** in any history of in-place updates and calls on the same objects, the result of a call is the function of the state at that call,
+    and that state is determined by the updates alone (earlier calls leave no trace): what the session cases observe of the library *)
+Theorem C12_session_call : forall (St Res : Type) (f : St -> Res) (s : St) (ops : list (op (St := St))),
+  run f s (ops ++ [Call]) = run f s ops ++ [f (final_state s ops)].
+Proof. exact @session_call. Qed.
+Print Assumptions C12_session_call.
+
+Theorem C12_session_calls_leave_no_trace : forall (St : Type) (s : St) (ops : list (op (St := St))),
+  final_state s ops = final_state s (filter is_upd ops).
+Proof. exact @session_calls_leave_no_trace. Qed.
+Print Assumptions C12_session_calls_leave_no_trace.
 
 (** non-vacuity: a 4-locus, 2-linkage-group, 2-trait setup meets every hypothesis of the exactness theorem and has a non-zero covariance *)
 Example C12_hyps_satisfiable : mem_ok (s_mem ex_S) /\ consecutive (s_chroms ex_S) 0 (S (length ex_ps)) /\ free_between ex_ps 0 (s_chroms ex_S) /\
